@@ -22,7 +22,7 @@ TECHNIQUE = ("bounded symbolic execution of the real total-estimation code with 
 BOUNDS = {
     "quick": "query patterns {identity, scaled identity, prefix, total row, integer full-rank, rank-deficient without ones, rank-deficient with ones, "
              "dense/sparse/operator spellings}, sizes 1-6, 1-4 measurements per call, 3 estimator copies",
-    "thorough": "quick + every ordered pair/triple of patterns and sizes up to 8",
+    "thorough": "quick + every ordered pair of patterns, 256 triples, sizes up to 10",
 }
 OUTSIDE = ("whether scipy's iterative lsmr(atol=0, btol=0) converges for a given size/conditioning (float numerics: a seeding agent observed it "
            "failing np.allclose for prefix matrices of size 8 and random full-rank matrices of size >= 16, which makes the estimate fall back "
@@ -65,6 +65,11 @@ def configs(tier, seed):
             for j, b in enumerate(pats):
                 fams.append([(a, 2 + (i + j) % 5, "dense"), (b, 3 + (i * j) % 6, "sparse")])
         fams.append([("P", 8, "dense"), ("F", 5, "dense"), ("I", 8, "sparse")])
+        for i, a in enumerate(pats):
+            for j, b in enumerate(pats):
+                for k_, c in enumerate(pats[::2]):
+                    fams.append([(a, 2 + (i + k_) % 4, "sparse"), (b, 2 + (j * 3 + k_) % 7, "operator"), (c, 3 + (i + j) % 6, "dense")])
+        fams.append([("F", 10, "dense"), ("P", 10, "sparse"), ("H", 9, "dense"), ("R1", 7, "dense")])
     for k, fam in enumerate(fams):
         for impl in ("factored", "local", "public"):
             cfgs.append(dict(name="%s:%d:%s" % (impl, k, "+".join("%s%d%s" % (p, n, s[0]) for p, n, s in fam)), impl=impl, fam=fam, cost=2))
